@@ -1,4 +1,4 @@
-\* exhaustive (quick): 3 temperatures, 6 kind pairs x 2 constructions, every behaviour of up to 3 calls
+\* exhaustive (quick): 3 temperatures, 6 kind pairs x 2 constructions, every behaviour of up to 4 calls
 CONSTANTS NT = 3  NV = 1  MaxLevel = 4
   KindChoices <- McKindsQuick  TempChoices <- McTempsTwo  LinkPairs <- McLinks
 INIT Init
